@@ -305,6 +305,27 @@ PoolAccounting ==
 RevertedUnchanged ==
    (mode = "miner" /\ last.kind \in {"refused", "error"}) => (nonce = last.pre.nonce /\ bal = last.pre.bal) \/ Cex("RevertedUnchanged")
 
+\* ---------------------------------------------------------------- big-number stage
+\* The statement quantifies over any price, value and balance (256-bit); TLC's integers are 32-bit.  Here a transaction is a
+\* plain transfer whose magnitudes are CLASSES; the driver picks the concrete numbers (they travel as decimal strings, the
+\* monitor judges them with exact arithmetic through the BigWord override) and the class decides the outcome symbolically,
+\* following preCheck/buyGas/CanTransfer as coded with exact (big.Int) arithmetic:
+\*   balance = limit*price - 1                (below_gas)    cannot pay for its gas                      -> refused
+\*   balance = limit*price                    (exact_gas)    pays the gas, nothing left for a value      -> applied iff value = 0
+\*   balance = limit*price + value - 1        (below_total)  value = 0: as below_gas; else value not affordable -> error after purchase
+\*   balance = limit*price + value            (exact_total)                                              -> applied
+\*   balance = limit*price + value + 12345    (above)                                                    -> applied
+BigPrices == {"p3", "p2e32", "p1e15", "p2e53", "p2e63", "p2e64m1", "p2e64", "p2e70"}
+BigLimits == {"g21000", "g2e20", "gblock"}
+BigAfford == {"below_gas", "exact_gas", "below_total", "exact_total", "above"}
+BigValues == {"zero", "v2e64", "v2e128", "v2e255"}
+BigCls == [price : BigPrices, lim : BigLimits, afford : BigAfford, val : BigValues]
+BigExpect(c) == CASE c.afford = "below_gas" -> "refused_funds"
+                  [] c.afford = "exact_gas" -> IF c.val = "zero" THEN "applied" ELSE "error_transfer"
+                  [] c.afford = "below_total" -> IF c.val = "zero" THEN "refused_funds" ELSE "error_transfer"
+                  [] OTHER -> "applied"
+\* an applied plain transfer: gas used = intrinsic = 21000, nonce + 1, sender pays value + 21000 * price exactly
+
 \* ---------------------------------------------------------------- generation
 Leaf == /\ (GenMode = "leaf" /\ (Len(hist) = MaxTx \/ dead) /\ Len(hist) > 0) =>
               PrintT("@@J " \o ToJson([kind |-> "B", h |-> [kind |-> "apply", mode |-> mode, pool |-> Pool0, ver |-> ver, txs |-> hist]]))
@@ -319,5 +340,8 @@ Leaf == /\ (GenMode = "leaf" /\ (Len(hist) = MaxTx \/ dead) /\ Len(hist) > 0) =>
               \A c \in { x \in SigCls : x.price = 1 /\ x.val = "zero" }, n \in NetIds :
                  PrintT("@@J " \o ToJson([kind |-> "B", h |-> [kind |-> "vsweep", tx |-> c, net |-> n,
                                                                vs |-> [i \in 1..(2 * n + 41) |-> i - 1]]]))
+        /\ (GenMode = "big" /\ hist = <<>> /\ ~sig.on) =>
+              \A c \in BigCls : PrintT("@@J " \o ToJson([kind |-> "B", h |-> [kind |-> "applybig", mode |-> mode, ver |-> ver, cls |-> c,
+                                                                              expect |-> BigExpect(c)]]))
 View == <<nonce, bal, pool, gu, gr, mode, dead, last, ver, sig>>
 =============================================================================
